@@ -95,6 +95,18 @@ CLAIMED["C19"] = dict(
          "vocabularies <= 3 over 5 tags) checks the same contracts and out-of-vocabulary independence natively.",
     technique=TECH + "; loop summaries with array-store accumulators; symbolic dicts (last-match lookup)",
 )
+CLAIMED["C13"] = dict(
+    level="other",
+    text="Deductive part: the similarity matrix built by the real _compute_similarity_matrix is proved n x n with an entry "
+         "exactly at the off-diagonal positions whose events compare similar (symmetric), the comparison being called only on "
+         "distinct input positions. The clause that carries the property's weight (sequences = connected components, partition, "
+         "input order) is decided by the exhaustive-to-a-bound stand-in grouping_graphs: all graphs on <= 5 (quick) / <= 6 "
+         "(thorough) nodes, exactly the enumeration the property's quantifier names, plus random graphs up to 30 nodes.",
+    note="Component correctness lives in scipy.sparse.csgraph.connected_components (compiled): no contract within reach decides "
+         "it; the group-by loop over a defaultdict of mutable Sequence objects is outside the verified subset. Trusted for the "
+         "deductive part: engine, solvers, itertools.combinations and coo_array contracts.",
+    technique=TECH + " for the matrix construction; exhaustive bounded enumeration (labelled bounded) for the components",
+)
 ALL = [f"C{n:02d}" for n in range(1, 21)]
 NOT_APPLICABLE = {p: "check not built yet in this session (work in progress; see DESIGN.md section 12 build order)"
                   for p in ALL if p not in CLAIMED}
